@@ -54,6 +54,7 @@ class Conc:
     def is_tuple3(self, v): return isinstance(v, tuple) and len(v) == 3
     def rgb8(self, v):
         return isinstance(v, tuple) and len(v) == 3 and all(type(x) in (int, bool) and 0 <= x <= 255 for x in v)
+    def in_0_255(self, v): return isinstance(v, tuple) and len(v) == 3 and all(isinstance(x, (int, float)) and 0 <= x <= 255 for x in v)
     def opt_rgb8(self, v): return v is None or self.rgb8(v)
     def CR(self, a, b): return oc.contrast(self.K, a, b)
     def DE(self, a, b): return oc.ciede2000(self.K, a, b)
